@@ -2,7 +2,7 @@
    the right-closed samplers send the uniform 0 to the first enumerated state even when its probability is zero;
    plus the statement that table-driven draws carry no state. *)
 From Coq Require Import List ZArith QArith Bool.
-From RV Require Import Base.QB Model.StepLaw Model.Inversion Model.BstAdapted.
+From RV Require Import Base.QB Model.StepLaw Model.StatesManager Model.Inversion Model.InversionOrig Model.BstAdapted.
 Import ListNotations.
 Open Scope Q_scope.
 
@@ -11,8 +11,8 @@ Definition zu_proj (i : Z) : Z := if (i =? 0)%Z then 1%Z else (-1)%Z.
 Definition zu_prob (s : Z) : Q := if (s =? 1)%Z then 0 else 1.
 
 Lemma inversion_zero_uniform_refuted :
-  exists st, inv_init zu_proj (fun _ => true) 1 zu_prob = Some st
-             /\ snd (inv_step zu_proj (fun _ => true) 1 zu_prob 1000000 st 0) = Out 1%Z
+  exists st, inv_init zu_proj (fun _ => false) 1 zu_prob = Some st
+             /\ snd (inv_step zu_proj (fun _ => false) 1 zu_prob 1000000 st 0) = Out 1%Z
              /\ zu_prob 1 == 0.
 Proof. eexists. split; [vm_compute; reflexivity|]. split; vm_compute; reflexivity. Qed.
 
@@ -23,19 +23,26 @@ Lemma bstadapted1d_zero_uniform_refuted :
   /\ mass (ba_cell_a axis mid_arith 0) (ba_cell_b axis mid_arith 0) == 0.
 Proof. split; vm_compute; reflexivity. Qed.
 
-(* F-C02-7: an enumeration with an inadmissible index (index 1) and _max_storage = 2.  When the storage fills up,
-   project_index_to_state_increment resets _last_projected_index and restarts at the pairing index _max_storage,
-   although the admissible states stored so far reach beyond it: state 2 is counted twice and the uniform 9/10,
-   which belongs to state 3 (cumulative sums 1/3, 2/3, 1 over the admissible states 0, 2, 3), is sent to state 2.
-   With a storage that does not fill up the answer is state 3. *)
+(* F-C02-7 / F-C14-6 (FIXED by a073fcb): an enumeration with an inadmissible index (index 1) and _max_storage = 2.
+   On the ORIGINAL code (Model/InversionOrig.v) the restart at the pairing index _max_storage counted state 2 twice:
+   the uniform 9/10, which belongs to state 3 (cumulative sums 1/3, 2/3, 1 over the admissible states 0, 2, 3), was
+   sent to state 2.  On the repaired code it is sent to state 3 with any storage. *)
+Definition ov_outside (s : Z) : bool := (s =? 1)%Z.
 Definition ov_inside (s : Z) : bool := negb (s =? 1)%Z.
 Definition ov_prob (s : Z) : Q := if (s =? 1)%Z then 0 else 1 # 3.
 
-Lemma inversion_overflow_refuted :
-  exists st, inv_init (fun i => i) ov_inside 3 ov_prob = Some st
-             /\ snd (inv_step (fun i => i) ov_inside 3 ov_prob 2 st (9 # 10)) = Out 2%Z
-             /\ snd (inv_step (fun i => i) ov_inside 3 ov_prob 1000000 st (9 # 10)) = Out 3%Z.
+Lemma inversion_overflow_orig :
+  exists st, InvOrig.inv_init (fun i => i) ov_inside 3 ov_prob = Some st
+             /\ snd (InvOrig.inv_step (fun i => i) ov_inside 3 ov_prob 2 st (9 # 10)) = InvOrig.Out 2%Z
+             /\ snd (InvOrig.inv_step (fun i => i) ov_inside 3 ov_prob 1000000 st (9 # 10)) = InvOrig.Out 3%Z.
 Proof. eexists. split; [vm_compute; reflexivity|]. split; vm_compute; reflexivity. Qed.
+
+Lemma inversion_overflow_repaired :
+  exists st, inv_init (fun i => i) ov_outside 3 ov_prob = Some st
+             /\ snd (inv_step (fun i => i) ov_outside 3 ov_prob 2 st (9 # 10)) = Out 3%Z
+             /\ snd (inv_step (fun i => i) ov_outside 3 ov_prob 1 st (9 # 10)) = Out 3%Z
+             /\ snd (inv_step (fun i => i) ov_outside 3 ov_prob 1000000 st (9 # 10)) = Out 3%Z.
+Proof. eexists. split; [vm_compute; reflexivity|]. repeat split; vm_compute; reflexivity. Qed.
 
 (* draws of the table-driven samplers: the model threads no state, a sequence of draws is a map *)
 Definition run_pure {T A : Type} (draw : T -> Q -> A) (tables : T) (us : list Q) : list A := map (draw tables) us.
